@@ -65,6 +65,7 @@ HAZ = {
     'simp_int_quot_product': (['cp', 'cpu'], 'constprop:simplify:integer-quotient-factor-pulled-out-of-product'),
     'simp_int_quot_like_terms': (['cp', 'cpu'], 'constprop:simplify:integer-quotient-like-terms-collected'),
     'simp_real_div_literal': (['cp', 'cpu'], 'constprop:simplify:quotient-with-real-literal'),
+    'simp_real_quot_sum_literal': (['cp', 'cpu'], 'constprop:simplify:quotient-of-sum-with-real-literal-term'),
     'simp_real_coeff_div_int': (['cp', 'cpu'], 'constprop:simplify:real-coefficient-over-integer-literal'),
     'simp_real_cancel_to_int': (['cp', 'cpu'], 'constprop:simplify:real-terms-cancel-to-integer-literal'),
     'simp_neg_product': (['cp', 'cpu'], 'constprop:simplify:nested-negated-product'),
@@ -83,6 +84,7 @@ HAZ = {
     'named_if_exit': (['dce0', 'dce1'], 'deadcode:exit-from-named-if-construct-left-behind'),
     'select_literal_range': (['dce0', 'dce1'], 'deadcode:select-case-literal-selector-range'),
     'select_logical': (['dce0', 'dce1'], 'deadcode:select-case-logical-selector'),
+    'uvars_scalars_with_loops': (['uvars'], 'unused-vars:loop-variable-declaration-removed'),
     'local_kind_param': (['uvars'], 'unused-vars:local-kind-parameter-removed'),
     'param_in_initializer': (['uvars'], 'unused-vars:parameter-used-only-in-initialiser-removed'),
     'char_len_local': (['uvars'], 'unused-vars:parameter-used-only-as-character-length-removed'),
@@ -111,6 +113,15 @@ def plan(idx, rng):
             'members': rng.random() < 0.5, 'sched_what': rng.choice(['args', 'vars'])}
     if hazard == 'sched_both':
         opts['sched_what'] = 'both'
+    # do_remove_unused_vars(remove_only_arrays=False) removes the declarations of loop variables (known): scalars are
+    # removed only from programs without DO loops, and in the slice of the 'uvars_scalars_with_loops' hazard
+    opts['only_arrays'] = True
+    if hazard in ('local_kind_param', 'param_in_initializer', 'char_len_local', 'local_only_in_internal') or \
+            (hazard is None and mode in ('uvars', 'sched', 'pipeline') and rng.random() < 0.35):
+        opts['only_arrays'] = False
+        flags['do_loops'] = False
+    if hazard == 'uvars_scalars_with_loops':
+        opts['only_arrays'] = False
     if mode in ('cp', 'cpu', 'cp_dce', 'pipeline'):
         flags['internal'] = False        # do_constant_propagation raises on routines with internal procedures (known)
     return mode, hazard, flags, opts
